@@ -19,6 +19,23 @@ CHECKS = {
          "DESIGN.md §3.1, §3.2, §6 C18"),
 }
 
+CHECKS["C09"] = ("walletsim", "exploration",
+  "deterministic simulation: whole wallet under a seeded scheduler (every mutex/goroutine/db-transaction boundary of wallet, waddrmgr, bdb, bbolt a PRNG decision, target-site bias on the commit->callback window), uniqueness + gap-free + porcupine counter + restart-equivalence oracles",
+  "2-4 user tasks issue NewAddress / NewChangeAddress / CurrentAddress / SendOutputs / dry-run CreateSimpleTx concurrently on the real wallet; the scheduler explores interleavings at every lock acquisition and at the point between bbolt's commit and waddrmgr's on-commit callback. Oracle: all issued addresses distinct, indices per branch gap-free (resolved by independent hdkeychain derivation), linearizable w.r.t. a fetch-and-increment counter, and a manager reopened on the committed image agrees with memory. Exploration: schedules are sampled, not enumerated.",
+  "channel operations inside the wallet run natively in the synctest bubble; FundPsbt and account-import call sites of the mutex are not driven yet. " + TB,
+  "DESIGN.md §3.1-3.4, §6 C09")
+CHECKS["C15"] = ("walletsim", "exploration",
+  "deterministic simulation: whole wallet attached to a simulated validating node + bitcoind-style client; seeded chain evolutions (extensions, reorgs, stale/duplicate notifications, lag, stop/restart while the node moves, backend call failures at start-up) with the tip/window/confirmation oracle at every synchronised point and a bounded-liveness check",
+  "The real wallet processes notification histories produced by simchain from seeded chain evolutions; at every synchronised point synced-to must equal the node tip, every remembered hash of the window must be the best chain's, and every transaction reported confirmed must be in that block of the best chain; a synchronised point must be reached within 120 simulated seconds after faults stop. Exploration over histories; oracle exact against the node's ground truth.",
+  "simchain stands in for the real backends (protocol modelled on chain/bitcoind_client.go); backend RPC failures are injected only into the start-up synchronisation (the statement does not cover failures while a notification is processed). " + TB,
+  "DESIGN.md §3.4, §6 C15")
+
+CHECKS["C17"] = ("vaultsim", "exploration",
+  "deterministic simulation: a real waddrmgr.Manager and snacl keys write ciphertexts to a simulated disk that corrupts stored blobs (bit flips, truncation, extension, torn writes, key swaps) across lock/unlock, re-keying and restarts; registry oracle (every ciphertext ever produced -> key, plaintext)",
+  "Ciphertexts produced by Manager.Encrypt / snacl.CryptoKey / snacl.SecretKey are persisted in the wallet database file and read back in later sessions (after lock/unlock, private and public passphrase change with injected write/commit failures, restart) with seeded storage faults applied; a decrypt must return exactly the registered plaintext for an intact blob under its own key and an error in every other case; DeriveKey/Unlock/Open must accept exactly the creating passphrase (near-miss set) before and after the parameter round trip. The per-blob sweep of every bit flip / truncation length is input enumeration that runs inside the simulator (said candidly in DESIGN.md §6 C17); the stateful part is what needs the simulator. Three genuine defects of the unchanged tree are recorded as known findings.",
+  "entropy (snacl's prng) is replaced by a seeded stream through an add-only overlay probe; scrypt parameters are the fast ones. " + TB,
+  "DESIGN.md §6 C17, §10")
+
 NOT_APPLICABLE = [
  {"property_id": "C07", "reason": "pure function of its input (outputs, fee rate, coin list, change script): no schedule, clock, I/O, fault or history for a simulator to own; the deciding technique would be input enumeration/property-based testing, which is a different family (DESIGN.md §7)"},
 ]
